@@ -377,6 +377,7 @@ def assertions_of(model, cls):
                 if exc[0] == "call" and exc[1][0] == "global":
                     excname = exc[1][1]
                 fields = []
+                guards_x = tuple(x for g_ in ev.guards for x in expand_exists_guard(g_))
                 for g, pol in ev.guards:
                     for a in cx.self_attrs_in(g):
                         if a not in fields:
@@ -386,7 +387,7 @@ def assertions_of(model, cls):
                         if a not in fields:
                             fields.append(a)
                 for fld in fields or ["<none>"]:
-                    out.append(Assertion(cls, defcls, name, fld, "raise", excname, ev.guards, ev.lineno))
+                    out.append(Assertion(cls, defcls, name, fld, "raise", excname, guards_x, ev.lineno))
                 # explicit form of _assert_value:  if self.f not in TABLE: raise ValueError
                 conds = [g for g in ev.guards if g[0][0] != "exc"]
                 if conds and excname == "ValueError":
@@ -1116,7 +1117,7 @@ def searches(cx):
                 comp = t[2][0]
                 name = comp[3][0][0][1]
                 elem = ("elem", comp[3][0][1], "any")
-                test = T.subst(comp[2], lambda x: elem if x == ("bound", name) else None)
+                test = T.bool_form(T.subst(comp[2], lambda x: elem if x == ("bound", name) else None))
                 out.append(Search(comp[3][0][1], elem, test, r, "any"))
                 continue
         for lid, coll in loops.items():
@@ -1322,6 +1323,13 @@ class Scenario(object):
             self.atoms[canon_guard((k, True))[0]] = v if canon_guard((k, True))[1] else (not v)
         self.default = default
         self.map = dict(subst or {})
+        # the same atoms after constant folding (len('.rpm') -> 4 ...), since conditions are looked up folded
+        for k, v in list(self.atoms.items()):
+            fk = self._fold(k)
+            if fk != k:
+                self.atoms[fk] = v
+                c, pol = canon_guard((fk, True))
+                self.atoms[c] = v if pol else (not v)
 
     def assume_context(self, ev):
         """additionally assume every not yet decided condition under which ``ev`` happens (its enclosing context)"""
@@ -1528,3 +1536,28 @@ def guard_atoms(guards):
             continue
         add(g[0], g[1])
     return out
+
+
+def expand_exists_guard(g):
+    """``next((x for x in C if test(x)), None) is not None`` and ``any(test(x) for x in C)`` are 'some element of C satisfies
+    test': -> [(test over ('elem', C, 'exists'), True)] so that such a condition reads like the guard of a raise inside a loop over
+    C; any other guard is returned unchanged as [g]"""
+    t, pol = canon_guard(g)
+    comp = None
+    if t[0] == "cmp" and t[1] == ("is",) and not pol and ("const", None) in t[2]:
+        other = [x for x in t[2] if x != ("const", None)]
+        if other and other[0][0] == "call" and other[0][1] == ("global", "next") and len(other[0][2]) == 2 \
+                and other[0][2][1] == ("const", None) and other[0][2][0][0] == "comp":
+            comp = other[0][2][0]
+            if len(comp[3]) == 1 and comp[2] == ("bound", comp[3][0][0][1]) and comp[3][0][2]:
+                tests = list(comp[3][0][2])
+            else:
+                comp = None
+    elif t[0] == "call" and t[1] == ("global", "any") and pol and len(t[2]) == 1 and t[2][0][0] == "comp" and len(t[2][0][3]) == 1:
+        comp = t[2][0]
+        tests = list(comp[3][0][2]) + [comp[2]]
+    if comp is None:
+        return [g]
+    name = comp[3][0][0][1]
+    elem = ("elem", comp[3][0][1], "exists")
+    return [(T.subst(x, lambda y: elem if y == ("bound", name) else None), True) for x in tests]
